@@ -103,6 +103,8 @@ def parse(line):
 
 
 def oracle(case, line):
+    if line.startswith("IMPLDIFF"):
+        return "an entry point of toml_write writes this string differently from the default style of the builder: %s" % line[:300]
     styles = VSTYLES if case.cmd == "wstr" else KSTYLES
     f = parse(line)
     if f is None or sorted(f) != sorted(styles):
